@@ -173,6 +173,7 @@ func (fx *Fx) ctxMethod(st *State, recv string, meth string, sig *types.Signatur
 		// ghost: the length of the call trace when the context's error was last read (lastctxerr() in contracts):
 		// Err() changes over time, so "judged against the error as it is after X" is a statement about this position
 		st.ghost["ctxerrat"] = Val{T: types.Typ[types.Int], S: SInt, X: fx.trCount(st)}
+		st.ghost["ctxerrval"] = r // lastctxerrval() in contracts: the value that call returned
 		return []Val{r}, true
 	}
 	return nil, false
